@@ -259,9 +259,12 @@ def run_autoindent(ctx, drv, bj, variant_letter, fail, ref_prefix, split_keep, c
             nested += 1
             ctx.count("autoindent:nested-markers")
         if real_tree == "syntax-error" or got[0] != "ok":
+            # the generator writes well-formed templates only: the model accepts them, so must the parser
             ctx.count("autoindent:real-engine-error")
-            if at is not None and at.startswith("ok") and real_tree == "syntax-error":
-                ctx.count("autoindent:model-parses-what-the-parser-rejects")
+            if at is not None:
+                ctx.traces += 1
+                if at.startswith("ok"):
+                    ctx.disagree("subparse-tree", {"source": src, **setting}, at, real_tree if real_tree == "syntax-error" else list(got))
             continue
         if at is not None:
             ctx.traces += 2
@@ -288,3 +291,146 @@ def run_autoindent(ctx, drv, bj, variant_letter, fail, ref_prefix, split_keep, c
     if cases:
         src, cx, parts, lstrip, trim, _ = cases[-1]
         ctx.sample({"autoindent_source": src, "context": cx, "partials": parts})
+
+
+# ---------------------------------------------------------------------------------------------------------------------
+# marked STATEMENTS of every kind, also under template inheritance: sentinel oracle
+# ---------------------------------------------------------------------------------------------------------------------
+S0, S1 = "", ""       # private-use characters: no case, no line boundary, not escaped, untouched by the filters used here
+
+STATEMENTS = [
+    # (name, open tag (without delimiters), body, close tag, extra templates, child block name or None)
+    ("block", "block bx", "d1\n\nd2", "endblock", {}, "bx"),
+    ("block-expr", "block bx", "{{ v }}\n  t", "endblock", {}, "bx"),
+    ("block-trailing-newline", "block bx", "d1\nd2\n", "endblock bx", {}, "bx"),
+    ("block-scoped-in-loop", "block bx scoped", "i{{ x }}\nj", "endblock", {}, "bx"),
+    ("block-in-if", "block bx", "k\nl", "endblock", {}, "bx"),
+    ("filter", "filter upper", "a\n{{ v }}", "endfilter", {}, None),
+    ("filter-with-block", "filter upper", "a\n{% block bx %}in\nner{% endblock %}\nz", "endfilter", {}, "bx"),
+    ("if", "if true", "a\n{{ v }}\nb", "endif", {}, None),
+    ("if-else", "if false", "a", "else %}e1\ne2{% endif", {}, None),
+    ("for", "for x in [1, 2]", "r{{ x }}\n", "endfor", {}, None),
+    ("with", "with q = 3", "{{ q }}\n{{ v }}", "endwith", {}, None),
+    ("call", "call wrapm()", "c1\nc2", "endcall", {}, None),
+    ("include", "include 'part'", None, None, {"part": "p1\np2\n\np3"}, None),
+    ("include-with-block", "include 'partb'", None, None, {"partb": "p1\n{% block pb %}q1\nq2{% endblock %}"}, None),
+    ("set-block", "set cap", "x\ny", "endset", {}, None),
+    ("macro-definition", "macro later()", "m1\nm2", "endmacro", {}, None),
+    ("autoescape", "autoescape true", "{{ '<' }}\n{{ v }}", "endautoescape", {}, None),
+]
+CHILD_BODIES = ["l1\nl2\n\nl3", "c{{ super() }}\nd", "", "one", "{{ v }}\n"]
+
+
+def statement_cases(rng, quick):
+    pres = ["body:\n", "", "a\n", "x: ", "p\n\n"]
+    blanks = ["", "  ", "    ", "\t", " \t "]
+    posts = ["\nend\n", "", "|", "\n"]
+    values = ["V", "v1\nv2", "w\n", ""]
+    out = []
+    for (name, open_, body, close, extra, blockname) in STATEMENTS:
+        combos = [(p, w, q, v) for p in pres for w in blanks for q in posts for v in values]
+        for (pre, w, post, v) in (rng.sample(combos, 6) if quick else rng.sample(combos, 60)):
+            run = len(pre + w) - len((pre + w).rstrip(" \t"))
+            pre, w = (pre + w)[:len(pre + w) - run], (pre + w)[len(pre + w) - run:]
+            def build(star, s0, s1, trim=False):
+                # trim_blocks removes the newline right behind the end tag; in the plain form the sentinel sits there
+                post_ = post[1:] if (trim and s1 and post.startswith("\n")) else post
+                tag = "{%" + ("*" if star else "") + " " + open_ + " %}"
+                inner = tag if body is None else tag + body + "{% " + close + " %}"
+                head = "{% macro wrapm() %}<{{ caller() }}>{% endmacro %}" if name == "call" else ""
+                if name == "block-scoped-in-loop":
+                    return head + pre + "{% for x in [7, 8] %}" + (w if star else "") + s0 + inner + s1 + "{% endfor %}" + post
+                if name == "block-in-if":
+                    return head + pre + "{% if true %}" + (w if star else "") + s0 + inner + s1 + "{% endif %}" + post
+                return head + pre + (w if star else "") + s0 + inner + s1 + post_
+            children = [None]
+            if blockname:
+                children += rng.sample(CHILD_BODIES, 2 if quick else len(CHILD_BODIES))
+            for child in children:
+                tm = dict(extra); tp = dict(extra); tpt = dict(extra)
+                tm["main"] = build(True, "", "")
+                tp["main"] = build(False, S0, S1)
+                tpt["main"] = build(False, S0, S1, trim=True)
+                target = "main"
+                if child is not None:
+                    scoped = " scoped" if "scoped" in open_ else ""
+                    c = "{% extends 'main' %}{% block " + blockname + scoped + " %}" + child + "{% endblock %}"
+                    tm["child"] = c; tp["child"] = c; tpt["child"] = c
+                    target = "child"
+                out.append((name, tm, tp, tpt, target, {"v": v}, w))
+    return out
+
+
+def _apply(out, w, fn):
+    res, i = "", 0
+    while True:
+        a = out.find(S0, i)
+        if a < 0:
+            return res + out[i:]
+        b = out.find(S1, a)
+        if b < 0:
+            return None
+        res += out[i:a] + fn(w, out[a + 1:b])
+        i = b + 1
+
+
+def run_marked_statements(ctx, drv, bj, sj, fail, ref_prefix, split_keep):
+    from . import c19
+    cases = statement_cases(ctx.rng, ctx.quick)
+    pending = []
+    for (name, tm, tp_, tpt, target, cx, w) in cases:
+        for trim in (False, True):
+            tp = tpt if trim else tp_
+            got = c19.render(bj, tm, target, cx, trim=trim)
+            plain = c19.render(sj, tp, target, cx, trim=trim)
+            plain_b = c19.render(bj, tp, target, cx, trim=trim)
+            ctx.case(("marked-statement", name, json.dumps(tm, sort_keys=True), target, trim, cx["v"]), True)
+            ctx.count("marked-statement:" + name + (":overridden" if target == "child" else ""))
+            if plain[0] != "ok" or got[0] != "ok":
+                if plain[0] != got[0]:
+                    k = "marker-block-scopes-assignments" if name in ("set-block", "macro-definition") else "marker-render-other"
+                    fail(ctx, {"kind": k}, "a marked statement fails where the plain statement renders (or the other way round)",
+                         {"stream": "autoindent", "templates": tm, "main": target, "context_json": cx, "trim_blocks": trim, "lstrip_blocks": False,
+                          "bundled": list(got), "expected": list(plain), "plain_templates": tp})
+                continue
+            spec = _apply(plain[1], w, ref_prefix)
+            if spec is None or S0 in got[1]:
+                ctx.count("marked-statement:sentinels-lost")
+                continue
+            if got[1] != spec:
+                if got[1] == _apply(plain[1], w, lambda p, s: drop_final_prefix(p, s, ref_prefix, split_keep)):
+                    kind = "lineprefix-final-newline"
+                elif got[1] == _apply(plain[1], w, impl_prefix):
+                    kind = "lineprefix-terminator-rewritten"
+                else:
+                    kind = "marker-render-other"
+                ctx.count("marked-statement-fail:" + kind)
+                fail(ctx, {"kind": kind}, "a marked statement (" + name + ") does not render as the plain statement with the captured blanks in front of every non-empty line: " + kind,
+                     {"stream": "autoindent", "templates": tm, "main": target, "context_json": cx, "trim_blocks": trim, "lstrip_blocks": False,
+                      "bundled": list(got), "expected": ["ok", spec], "plain_templates": tp, "plain_output_stock": plain[1]})
+            # model prediction: the captured blanks + `lineprefix` of the model on what the bundled engine prints for the plain statement
+            if drv is not None and plain_b[0] == "ok":
+                pending.append((name, tm, target, trim, w, plain_b[1], got[1]))
+    if drv is not None and pending:
+        regions, index = [], []
+        for n, (name, tm, target, trim, w, pout, got) in enumerate(pending):
+            i = 0
+            while True:
+                a = pout.find(S0, i)
+                if a < 0:
+                    break
+                b = pout.find(S1, a)
+                regions.append(f"lp {enc(w)} {enc(pout[a + 1:b])}")
+                index.append(n)
+                i = b + 1
+        ans = drv.ask(regions)
+        per = {}
+        for n, a in zip(index, ans):
+            per.setdefault(n, []).append(dec(a))
+        for n, (name, tm, target, trim, w, pout, got) in enumerate(pending):
+            it = iter(per.get(n, []))
+            pred = _apply(pout, w, lambda _p, _s: next(it))
+            ctx.traces += 1
+            if pred != got:
+                ctx.disagree("marked-statement-render", {"statement": name, "templates": tm, "render": target, "trim_blocks": trim}, pred, got)
+    ctx.extra["marked_statement_cases"] = len(cases) * 2
